@@ -41,7 +41,7 @@ inline void fwake(std::atomic<std::uint32_t>& a) noexcept {
   syscall(SYS_futex, reinterpret_cast<std::uint32_t*>(&a), FUTEX_WAKE_PRIVATE, 0x7fffffff, nullptr, nullptr, 0);
 }
 
-enum evkind : std::uint8_t { EV_POINT = 0, EV_OPB = 1, EV_SPIN = 2, EV_FINISH = 3, EV_START = 4 };
+enum evkind : std::uint8_t { EV_POINT = 0, EV_OPB = 1, EV_SPIN = 2, EV_FINISH = 3, EV_START = 4, EV_BLOCK = 5 };
 
 struct event {
   std::uint64_t step;
@@ -204,6 +204,11 @@ class scheduler {
   static thread_local bool tls_active;
   void point(unsigned hook_kind, const void* addr) noexcept;
   void op_boundary() noexcept { sched_event(EV_OPB); }
+  // Harness-level ordering constraint: the calling thread is not runnable
+  // until pred() holds (evaluated by whoever holds the baton at each
+  // scheduling event). Lets a program script the coarse order of operations
+  // so that the preemption budget is spent inside the racing calls.
+  void block_until(std::function<bool()> pred) noexcept;
   std::uint64_t now() const noexcept { return step_; }
   // unique, totally ordered time stamp for history events (advances the
   // step counter; not a scheduling point)
@@ -238,6 +243,9 @@ class scheduler {
   std::uint64_t consecutive_spins_ = 0;
   std::uint64_t last_stay_step_[MAX_THREADS] = {};
   std::uint64_t last_switch_step_ = 1;
+  std::function<bool()> blocked_pred_[MAX_THREADS];
+  unsigned blocked_ = 0;
+  void wake_blocked() noexcept;
 
   void pool_main(int i);
   void sched_event(evkind k) noexcept;
@@ -278,7 +286,8 @@ inline void scheduler::pool_main(int i) {
       // FINISH event: hand the baton on
       runnable_ &= ~(1U << i);
       consecutive_spins_ = 0;
-      if (runnable_ == 0) {
+      if (blocked_ != 0) wake_blocked();
+      if (runnable_ == 0 && blocked_ == 0) {
         all_done_.store(1, std::memory_order_release);
         fwake(all_done_);
       } else {
@@ -325,6 +334,7 @@ inline void scheduler::run(const std::vector<std::function<void()>>& bodies, str
   consecutive_spins_ = 0;
   for (auto& b : last_stay_step_) b = 0;
   last_switch_step_ = 1;
+  blocked_ = 0;
   runnable_ = (1U << n_) - 1;
   all_done_.store(0, std::memory_order_relaxed);
   if (slog) {
@@ -412,19 +422,45 @@ inline void scheduler::abort_execution(verdict_kind v) noexcept {
 }
 
 inline void scheduler::switch_to(int from, int to) noexcept {
+  // decide before the hand-over: afterwards the other thread owns the state
+  const bool must_wait = from >= 0 && (((runnable_ | blocked_) >> from) & 1U);
   cur_ = to;
   slot& t = slots_[to];
   t.go.store(1, std::memory_order_release);
   fwake(t.go);
-  if (from >= 0 && ((runnable_ >> from) & 1U)) {
+  if (must_wait) {
     slot& f = slots_[from];
     fwait(f.go, 0);
     f.go.store(0, std::memory_order_relaxed);
   }
 }
 
+inline void scheduler::wake_blocked() noexcept {
+  for (int t = 0; t < MAX_THREADS; ++t)
+    if (((blocked_ >> t) & 1U) && blocked_pred_[t]()) {
+      blocked_ &= ~(1U << t);
+      runnable_ |= 1U << t;
+    }
+}
+
+inline void scheduler::block_until(std::function<bool()> pred) noexcept {
+  if (!tls_active || pred()) return;
+  const int me = tls_tid;
+  blocked_pred_[me] = std::move(pred);
+  blocked_ |= 1U << me;
+  runnable_ &= ~(1U << me);
+  sched_event(EV_BLOCK);
+}
+
 inline void scheduler::sched_event(evkind k) noexcept {
   const int me = tls_tid;
+  if (blocked_ != 0) wake_blocked();
+  if (runnable_ == 0) {
+    // every unfinished thread waits for a condition that cannot become true
+    std::fprintf(stderr, "harness error: all threads are blocked on await conditions\n");
+    std::fflush(nullptr);
+    _exit(2);
+  }
   unsigned options = runnable_;
   if (k == EV_SPIN) {
     ++spins_;
